@@ -53,7 +53,7 @@ SPEC = dict(
     assumptions=["prior content of config-capable files is valid TOML/INI (init appends to it)",
                  "the initial version is '<current UTC year>.1001-alpha'"],
     required=["layouts", "init_appended_to_existing_file", "init_created_new_file", "show_ok", "second_init_refused",
-              "existing_section_preferred", "dry_runs_clean"],
+              "existing_section_preferred", "dry_runs_clean", "pinned_clock_cases"],
     anchors=[("config", "_pick_config_filepath"), ("config", "default_config"), ("config", "write_content"),
              ("cli", "init")],
     exhaustive={"quick": True, "thorough": True},
@@ -70,6 +70,13 @@ def cases(ctx):
             if ctx.mine(k):
                 yield {"plain": list(plain), "cfgs": list(cfgs)}
             k += 1
+    # "this year's initial version" on days around New Year (the clock bumpver reads, utils.now, is pinned)
+    for date in CLOCK_DATES:
+        for plain, cfgs in (([True, False, False], ["absent"] * 5), ([True, False, True], ["absent", "unrelated", "absent", "absent", "absent"]),
+                            ([False, True, True], ["unrelated", "absent", "absent", "empty", "absent"])):
+            if ctx.mine(k):
+                yield {"plain": plain, "cfgs": cfgs, "clock": date}
+            k += 1
     if ctx.quick:
         # existing sections (sampled product in quick: one or two sections among other files)
         for i, fn in enumerate(CONFIGS):
@@ -81,9 +88,28 @@ def cases(ctx):
                 k += 1
 
 
+# days on which the ISO (week-based) year differs from the calendar year, their neighbours, and ordinary days
+CLOCK_DATES = ["2024-12-29", "2024-12-30", "2024-12-31", "2025-01-01", "2026-12-31", "2027-01-01", "2027-01-03", "2027-01-04",
+               "2021-01-03", "2020-12-31", "2032-01-01", "2026-06-15", "2028-02-29"]
+
+
 def run_case(ctx, case):
     harness.bv()
     import bumpver.utils as bvu
+    if case.get("clock"):
+        import datetime as dt
+        real_now = bvu.now
+        fixed = dt.datetime.fromisoformat(case["clock"] + "T12:00:00+00:00")
+        bvu.now = lambda: fixed
+        ctx.count("pinned_clock_cases")
+        try:
+            return run_layout(ctx, case, bvu)
+        finally:
+            bvu.now = real_now
+    return run_layout(ctx, case, bvu)
+
+
+def run_layout(ctx, case, bvu):
     files = {}
     for fn, present in zip(PLAIN, case["plain"]):
         if present:
@@ -117,7 +143,7 @@ def run_case(ctx, case):
         desc = {"layout": {k: (case["cfgs"][CONFIGS.index(k)] if k in CONFIGS else "present") for k in files},
                 "chosen_by_model": chosen}
         ctx.count("layouts")
-        ctx.evaluated((tuple(case["plain"]), tuple(case["cfgs"]), chosen), sample=desc)
+        ctx.evaluated((tuple(case["plain"]), tuple(case["cfgs"]), chosen, case.get("clock")), sample=desc)
         if mid != before or harness.writes_inside(dry, d):
             ctx.violation("other:init_dry_wrote", f"init --dry changed {harness.diff_snapshots(before, mid)} "
                           f"write-set {sorted(harness.writes_inside(dry, d))}", observed=desc)
